@@ -190,7 +190,7 @@ def corruptions(rng, texts, prefix, n):
     kinds = ["trunc_stmt", "trunc_stmt", "trunc_byte", "splice", "lost_block", "byteflip", "undecodable",
              "empty", "whitespace", "extra_end", "missing_end", "dup_contains", "misplaced_contains",
              "malformed", "malformed", "self_include", "directory", "binary", "long_line", "crlf_mix", "ends_in_predoc",
-             "ends_in_predoc"]
+             "ends_in_predoc", "bad_namelist", "bad_namelist", "semicolon_tail"]
     for _ in range(n):
         k = rng.choice(kinds)
         t = rng.choice(texts)
@@ -229,6 +229,18 @@ def corruptions(rng, texts, prefix, n):
             cut = rng.randrange(1, len(lines))
             mark = rng.choice(["!>", "!|", "  !> ", "!>"])
             out.append((k, "\n".join(lines[:cut]) + "\n" + mark + " documentation of something that was cut off\n" + rng.choice(["", "\n", "\n\n"])))
+        elif k == "bad_namelist":
+            # a NAMELIST statement that starts right and ends wrong, with long names
+            a = prefix + "first_namelist_variable_with_a_long_name"
+            b = prefix + "second_namelist_variable_also_long"
+            bad = rng.choice(["namelist /%sg/ %s, %s = 1" % (prefix, a, b), "namelist /%sg/ %s,, %s" % (prefix, a, b),
+                              "namelist /%sg/ %s, %s /%sh/" % (prefix, a, b, prefix), "namelist /%sg/ %s %s )" % (prefix, a, b)])
+            i = rng.randrange(1, len(lines))
+            out.append((k, "\n".join(lines[:i] + ["  integer :: %s, %s" % (a, b), "  " + bad] + lines[i:]) + "\n"))
+        elif k == "semicolon_tail":
+            # the last END statements repeated on one `;`-separated line: the first is a surplus END, the second
+            # is still queued in the reader when the file is rejected
+            out.append((k, t.rstrip("\n") + "\nend subroutine %stail; end module %stail\n" % (prefix, prefix)))
         elif k == "empty":
             out.append((k, ""))
         elif k == "whitespace":
